@@ -193,3 +193,200 @@ class SymEnumerate:
 
     def iterate(self, it, node):
         return [(self.start + j, x) for j, x in enumerate(self.seq.iterate(it, node))]
+
+
+# ----------------------------------------------------------------------------- symbolic maps over opaque keys
+BOOLROW = z3.ArraySort(INT, z3.BoolSort())
+
+
+class KeyTok:
+    """an opaque hashable key (e.g. a bytes node id) known only up to equality: `kid` is its ghost identity"""
+
+    def __init__(self, kid, label='key'):
+        self.kid, self.label = kid, label
+
+    def compare(self, it, op, other, node):
+        import ast as _ast
+        if isinstance(other, KeyTok):
+            r = simp(zint(self.kid) == zint(other.kid))
+        else:
+            r = False
+        if isinstance(op, _ast.Eq):
+            return r
+        if isinstance(op, _ast.NotEq):
+            return Not(r)
+        raise Unsupported('ordering of opaque keys')
+
+    def truth(self, it):
+        return True
+
+    def __repr__(self):
+        return f'<KeyTok {self.kid}>'
+
+
+class SymMap:
+    """dict over opaque keys: dom[k] (membership) and val[k]; iteration order is arbitrary"""
+
+    def __init__(self, run, label, dom=None, val=None, none=None):
+        self.run, self.label = run, label
+        self.dom = dom if dom is not None else z3.K(INT, z3.BoolVal(False))
+        self.val = val if val is not None else z3.K(INT, z3.IntVal(0))
+        self.none = none            # optional Int->Bool array: value is None
+
+    @staticmethod
+    def fresh(run, label):
+        return SymMap(run, label, z3.Const(run.fresh_name(label + '_dom'), BOOLROW), run.fresh_row(label + '_val'))
+
+    def copy(self):
+        return SymMap(self.run, self.label + "'", self.dom, self.val, self.none)
+
+    def has(self, k):
+        return z3.Select(self.dom, zint(k.kid))
+
+    def at(self, k):
+        return z3.Select(self.val, zint(k.kid))
+
+    def lookup(self, k):
+        from .values import OptInt
+        if self.none is not None:
+            return OptInt(simp(z3.Select(self.none, zint(k.kid))), self.at(k))
+        return self.at(k)
+
+    def store(self, k, v):
+        from .values import OptInt
+        kid = zint(k.kid)
+        self.dom = z3.Store(self.dom, kid, z3.BoolVal(True))
+        if isinstance(v, OptInt):
+            if self.none is None:
+                self.none = z3.K(INT, z3.BoolVal(False))
+            self.none = z3.Store(self.none, kid, zbool(v.isnone))
+            self.val = z3.Store(self.val, kid, zint(v.val))
+        else:
+            if v is None:
+                if self.none is None:
+                    self.none = z3.K(INT, z3.BoolVal(False))
+                self.none = z3.Store(self.none, kid, z3.BoolVal(True))
+                return
+            if self.none is not None:
+                self.none = z3.Store(self.none, kid, z3.BoolVal(False))
+            self.val = z3.Store(self.val, kid, zint(v))
+
+    def same_as(self, other):
+        """extensional equality on the domain"""
+        k = z3.Int('k!map')
+        return z3.ForAll([k], z3.And(z3.Select(self.dom, k) == z3.Select(other.dom, k),
+                                     z3.Implies(z3.Select(self.dom, k), z3.Select(self.val, k) == z3.Select(other.val, k))))
+
+
+class SymItems:
+    """m.items() / m.keys() of a SymMap, for `for` loops with a specification (set protocol: ghost visited set)"""
+    set_protocol = True
+
+    def __init__(self, m, what='items'):
+        self.m, self.what = m, what
+
+    def iterate(self, it, node):
+        raise Unsupported('iteration over a symbolic dict needs a loop specification')
+
+    def binop_sub(self, it, other):
+        return SymKeyDiff(self.m, other.m)
+
+
+class SymKeyDiff:
+    def __init__(self, a, b):
+        self.a, self.b = a, b
+
+    def len_(self, it, node):
+        c = it.run.fresh_int('ndiff')
+        k = z3.Int('k!diff')
+        it.run.assume(c >= 0)
+        it.run.assume((c > 0) == z3.Exists([k], z3.And(z3.Select(self.a.dom, k), z3.Not(z3.Select(self.b.dom, k)))))
+        return c
+
+
+class LazyDict(dict):
+    """what `{}` evaluates to: an ordinary dict until an opaque key (KeyTok) is used, then a SymMap"""
+
+    def __init__(self, *a, **k):
+        super().__init__(*a, **k)
+        self.sym = None
+        self.run = None
+
+    def _sym(self, it):
+        if self.sym is None:
+            if len(self):
+                raise Unsupported('dict mixing concrete and opaque keys')
+            self.sym = SymMap(it.run, 'dict')
+        return self.sym
+
+    def getitem(self, it, idx, node):
+        if isinstance(idx, KeyTok):
+            m = self._sym(it)
+            if not it.run.branch(m.has(idx), 'dict.has_key'):
+                it.raise_(KeyError, idx, node=node)
+            return m.lookup(idx)
+        if self.sym is not None:
+            raise Unsupported('concrete key into a symbolic dict')
+        if is_sym(idx) or isinstance(idx, View):
+            raise Unsupported('symbolic dict key')
+        try:
+            return dict.__getitem__(self, idx)
+        except KeyError:
+            it.raise_(KeyError, idx, node=node)
+        except TypeError as e:
+            it.raise_(TypeError, str(e), node=node)
+
+    def setitem(self, it, idx, val, node):
+        if isinstance(idx, KeyTok):
+            self._sym(it).store(idx, val)
+            return
+        if self.sym is not None:
+            raise Unsupported('concrete key into a symbolic dict')
+        if is_sym(idx) or isinstance(idx, View):
+            raise Unsupported('symbolic dict key')
+        dict.__setitem__(self, idx, val)
+
+    def contains(self, it, item, node):
+        if isinstance(item, KeyTok):
+            return self._sym(it).has(item)
+        if self.sym is not None:
+            return False
+        if is_sym(item) or isinstance(item, View):
+            raise Unsupported('symbolic dict key')
+        return dict.__contains__(self, item)
+
+    def truth(self, it):
+        if self.sym is not None:
+            k = z3.Int('k!nonempty')
+            return z3.Exists([k], z3.Select(self.sym.dom, k))
+        return len(self) > 0
+
+    def getattr_(self, it, name, node):
+        if self.sym is None and name not in ('copy',):
+            return getattr(dict, name).__get__(self, LazyDict) if hasattr(dict, name) else None
+        m = self.sym
+
+        def get(it_, k, default=None):
+            from .values import OptInt
+            if not isinstance(k, KeyTok):
+                return default
+            has = m.has(k)
+            plain_default = default is not None and (isinstance(default, int) or is_symint(default))
+            if m.none is None and plain_default:
+                return If(has, m.at(k), default)
+            isnone = Or(Not(has) if not plain_default else False,
+                        And(has, z3.Select(m.none, zint(k.kid))) if m.none is not None else False)
+            return OptInt(simp(isnone) if is_sym(isnone) else isnone, If(has, m.at(k), default if plain_default else 0))
+        if name == 'get':
+            return _Method(get)
+        if name == 'items':
+            return _Method(lambda it_: SymItems(m, 'items'))
+        if name == 'keys':
+            return _Method(lambda it_: SymItems(m, 'keys'))
+        if name == 'copy':
+            def cp(it_):
+                d = LazyDict(self)
+                d.sym = m.copy() if m is not None else None
+                return d
+            return _Method(cp)
+        raise Unsupported(f'dict.{name} on a symbolic dict')
